@@ -190,6 +190,7 @@ func runC04(w *World, r *Report) {
 	c04Builder(w, r)
 	c04KindRouting(w, r)
 	c04ForeignRootConsumedOnce(w, r)
+	c04BuilderHelpers(w, r)
 	r.Min("R8", 10)
 	r.Min("R1", 6)
 	r.Min("R2", 1)
@@ -706,5 +707,33 @@ func c04ForeignRootConsumedOnce(w *World, r *Report) {
 	}
 	if n < 2 {
 		r.Undec("R7", "foreignRoot-consumed-once", token.NoPos, "expected at least two consumers of flowBuilder.foreignRoot, found %d", n)
+	}
+}
+
+// c04BuilderHelpers: small helpers the graph builder relies on: setAsRoot
+// replaces the root unconditionally (the builder first sets a provisional root
+// and then the incorporated flow's own), and a processor reference keeps its
+// full `flow.processor` key as ReferenceName (the node key) - it is taken
+// before the name is split.
+func c04BuilderHelpers(w *World, r *Report) {
+	if sr := w.Fn(pkgFlow, "FlowDirection.setAsRoot"); sr == nil {
+		r.Undec("R7", "FlowDirection.setAsRoot", token.NoPos, "function not found")
+	} else {
+		st := fieldStores(sr, "root")
+		ok := len(st) == 1 && st[0].Val == ssa.Value(sr.Params[1]) && len(CondsOf(st[0].Block())) == 0
+		r.Check(ok, "R7", "setAsRoot/replaces-unconditionally", sr.Pos(), "setAsRoot stores the given entry point into fd.root on every call")
+	}
+	if pr := w.Fn(pkgSCfg, "ProcessorRef.parseRef"); pr == nil {
+		r.Undec("R7", "ProcessorRef.parseRef", token.NoPos, "function not found")
+	} else {
+		rn := fieldStores(pr, "ReferenceName")
+		nameStores := fieldStores(pr, "Name")
+		ok := len(rn) == 1 && len(CondsOf(rn[0].Block())) == 0 && strings.HasSuffix(Path(rn[0].Val), "pr.Name")
+		for _, ns := range nameStores {
+			if ok && !domInstr(rn[0], ns) {
+				ok = false
+			}
+		}
+		r.Check(ok && len(nameStores) >= 1, "R7", "parseRef/reference-name-is-the-full-key", pr.Pos(), "ReferenceName = the unsplit name, stored before Name is replaced by its last part (a processor of another flow keeps its `flow.processor` node key)")
 	}
 }
